@@ -693,6 +693,9 @@ func init() {
 			pg := defaultPGen()
 			faults := run%2 == 1
 			pg.plan = planOpts{chunk: true, faults: faults, dead: faults}
+			if run%5 == 3 {
+				pg.wNil = 2 // skips through the wrapper stream the reader like any Parse
+			}
 			t := genParserTrace(r, tier, ptOpts{types: parserTypes, pg: pg, wrapShare: 1.0,
 				tweak: func(r *RNG, p *ParserSpec) {
 					if r.Chance(0.3) {
